@@ -106,6 +106,14 @@ static const void *find_block(const void *p)
 }
 
 static std::map<std::string, int> g_guard;   // 0 unknown, 1 runs, 2 faults
+// a defect in a central primitive violates in tens of thousands of transitions: report each signature a bounded number
+// of times per job (every violating transition is still cut off and counted) so that the run stays below the engine's cap
+static std::map<std::string, uint64_t> g_reported;
+static void report(Run &r, const std::string &sg, const std::string &detail)
+{
+	if (++g_reported[sg] <= 40 || r.replaying) r.violation(sg, detail);
+	else r.count("repeat_violations_not_listed");
+}
 
 struct World {
 	Run &r;
@@ -177,7 +185,7 @@ struct World {
 	}
 	bool fail(const char *group, const std::string &what)
 	{
-		r.violation(sig + "|" + group, describe() + ": " + what);
+		report(r, sig + "|" + group, describe() + ": " + what);
 		bad = true;
 		return false;
 	}
@@ -216,7 +224,7 @@ struct World {
 			g = out == "ok" ? 1 : 2;
 			if (g == 1) return true;
 		}
-		r.violation(sig + "|SIGSEGV", describe() + ": the call faults (process fault in a forked probe of this call class)");
+		report(r, sig + "|SIGSEGV", describe() + ": the call faults (process fault in a forked probe of this call class)");
 		bad = true;
 		return false;
 	}
@@ -999,7 +1007,7 @@ static bool configure(const std::string &job, Tier tier)
 	std::vector<OpDef> &o = cfg.ops;
 	int S = cfg.nslots;
 	if (job == "buffer") {
-		cfg.depth = tier == Quick ? 4 : 6;
+		cfg.depth = tier == Quick ? 6 : 14;
 		add_ops(o, B_NEW, S, 0); add_ops(o, B_NEWHI, S, 0);
 		add_ops(o, B_CLONE, S, S); add_ops(o, B_CLEAR, S, 0); add_ops(o, B_CXXASSIGN, S, S);
 		add_ops(o, B_TINIT, S, S); add_ops(o, B_TFINI, S, 0);
@@ -1008,12 +1016,12 @@ static bool configure(const std::string &job, Tier tier)
 	}
 	if (job.compare(0, 5, "meta:")) return false;
 	std::string k = job.substr(5);
-	cfg.depth = tier == Quick ? 4 : 5;
+	cfg.depth = tier == Quick ? 5 : 14;
 	if (k == "counting") cfg.kinds = {K_CNT};
 	else if (k == "geninfo") cfg.kinds = {K_GENINFO, K_CNT};
 	else if (k == "metabuffer") cfg.kinds = {K_METABUF, K_CNT};
 	else if (k == "rawdata") cfg.kinds = {K_RAW, K_CNT};
-	else if (k == "generic") { cfg.kinds = {K_GENI, K_GENR, K_CNT}; cfg.genconv = true; }
+	else if (k == "generic") { cfg.kinds = {K_GENI, K_GENR, K_CNT}; cfg.genconv = true; cfg.depth = tier == Quick ? 3 : 4; }   // every destroyed generic costs an ASan alloc-dealloc-mismatch report
 	else if (k == "cxxtype") cfg.kinds = {K_CXX, K_CNT};
 	else if (k == "stream") cfg.kinds = {K_STREAM, K_CNT};
 	else if (k == "iobuffer") cfg.kinds = {K_IOBUF, K_CNT};
@@ -1053,7 +1061,7 @@ static void flush_counters(Run &r)
 
 void mc_explore(Run &r, const std::string &job)
 {
-	C = Counters(); g_mismatch = 0;
+	C = Counters(); g_mismatch = 0; g_reported.clear();
 	r.require("nontrivial");
 	if (job == "refcount") {
 		r.require("raise_refused_at_limit"); r.require("lower_at_zero");
